@@ -9,6 +9,10 @@
 (*   cmapc     CMapDB._cmap_cache   name -> loaded CMap (filled on use)    *)
 (*   umapc     CMapDB._umap_cache   ordering -> [horizontal, vertical]     *)
 (*   interned  PSLiteralTable: names in interning order (identity = index) *)
+(*   rmemo     what a process-wide memo "object number -> resolved value"  *)
+(*             of resolve_all would hold for object 15 (0: nothing; the    *)
+(*             design has no such memo - its bookkeeping lives for one     *)
+(*             call; only ResolveMemoProcessWide writes it)                *)
 (*   heap      abstract allocator state (read only by the two address      *)
 (*             deviations)                                                 *)
 (* PER CALL:   calls[s].fonts  PDFResourceManager._cached_fonts objid->font*)
@@ -112,6 +116,9 @@
 (*   FormsInProgressByIdentity  a form being rendered is identified by the *)
 (*                     identity of the stream object: with caching off     *)
 (*                     every Do re-parses the form, the cycle is never cut *)
+(*   ResolveMemoProcessWide  resolve_all keeps its memo object number ->   *)
+(*                     value in a mutable default argument: object 15 of a *)
+(*                     later document resolves to the value of the first   *)
 (*   ContentsArrayConsumed  the content parser takes the streams OUT of the*)
 (*                     /Contents array (pop) - the array is the cached     *)
 (*                     object itself: later pages sharing it are empty     *)
@@ -181,10 +188,14 @@ ApplyDiffs(t, q) == IF q = <<>> THEN t
 ToUni(d)    == [c \in Codes |-> IF d = "dC" /\ c = 2 THEN "Y" ELSE ""]
 UseNamed(d) == IF d = "dC" THEN "H" ELSE ""                      \* `/H usecmap` inside the ToUnicode stream
 Widths(d)   == [c \in Codes |-> IF d = "dA" THEN (IF c = 1 THEN 500 ELSE 600)
-                               ELSE IF d = "dB" THEN (IF c = 1 THEN 700 ELSE 600) ELSE (IF c = 1 THEN 500 ELSE 800)]
+                               ELSE IF d = "dB" THEN (IF c = 1 THEN 700 ELSE 600) ELSE (IF c = 1 THEN 550 ELSE 800)]
 CMapOf(d)   == IF d = "dB" THEN "V" ELSE "H"
 CIDWidths(d) == [c \in Codes |-> IF d = "dA" THEN (IF c = 1 THEN 500 ELSE 1000)
-                                ELSE IF d = "dB" THEN (IF c = 1 THEN 0 - 500 ELSE 0 - 1000) ELSE 400]
+                                ELSE IF d = "dB" THEN (IF c = 1 THEN 0 - 500 ELSE 0 - 1000) ELSE (IF c = 1 THEN 550 ELSE 400)]
+\* in dA and dC the /W array of the CID font gives the width of code 1 as an INDIRECT element, object 15 - the same object
+\* number in both documents, with different values (it is also the first /Widths element of /F1): 500 in dA, 550 in dC
+IndirectW(d) == d \in {"dA", "dC"}
+W15(d) == Widths(d)[1]
 CSOf(d)     == IF d = "dA" THEN 3 ELSE IF d = "dB" THEN 1 ELSE 0   \* components of /CS0; 0: the document does not define it
 Encrypted(d) == d = "dC"
 NamesOf(d)  == <<"F1", "F2", "VerifSans", "WinAnsiEncoding", CMapOf(d)>>
@@ -251,8 +262,8 @@ NoRes == [txt |-> <<>>, w |-> <<>>, n |-> 0, frm |-> "", img |-> "", grp |-> ""]
 NoLast == [valid |-> FALSE, doc |-> "", page |-> 0, res |-> NoRes]
 
 \* ------------------------------------------------------------------ state
-VARIABLES base, cmapc, umapc, interned, heap, shared, calls, running, ncalls, client, last, sched
-vars == <<base, cmapc, umapc, interned, heap, shared, calls, running, ncalls, client, last, sched>>
+VARIABLES base, cmapc, umapc, interned, heap, rmemo, shared, calls, running, ncalls, client, last, sched
+vars == <<base, cmapc, umapc, interned, heap, rmemo, shared, calls, running, ncalls, client, last, sched>>
 
 EmptyTab == [c \in Codes |-> 0]
 EmptyStr == [c \in Codes |-> ""]
@@ -276,6 +287,7 @@ Init == /\ base = [enc |-> PristineEnc, cs |-> PristineCS]
         /\ cmapc = [n \in CMapNames |-> [loaded |-> FALSE, tab |-> EmptyTab]]
         /\ umapc = [loaded |-> FALSE, first |-> "", h |-> [k \in CIDs |-> ""], v |-> [k \in CIDs |-> ""]]
         /\ interned = <<"Type", "Font", "Page", "Pages", "Catalog">>       \* module-level LIT(...) constants
+        /\ rmemo = 0
         /\ heap = 0                  \* abstract allocator state: where the next objects will live
         /\ shared = NoFonts
         /\ calls = [s \in 1..MaxLive |-> Free]
@@ -306,7 +318,7 @@ Open(d, c, ps) ==
        /\ calls' = [calls EXCEPT ![s] = [Free EXCEPT !.st = "new", !.doc = d, !.caching = c, !.pages = ps, !.kind = "iter"]]
        /\ Log(Ev("open", s, d, c, ps, "iter", 0, NoRes))
   /\ ncalls' = ncalls + 1
-  /\ last' = NoLast /\ UNCHANGED <<base, cmapc, umapc, interned, heap, shared, running, client>>
+  /\ last' = NoLast /\ UNCHANGED <<base, cmapc, umapc, interned, heap, rmemo, shared, running, client>>
 
 Extract(d, c, ps, k) ==
   /\ running = 0 /\ ncalls < MaxCalls /\ FreeSlots # {}
@@ -316,20 +328,20 @@ Extract(d, c, ps, k) ==
        /\ running' = s
        /\ Log(Ev("extract", s, d, c, ps, k, 0, NoRes))
   /\ ncalls' = ncalls + 1
-  /\ last' = NoLast /\ UNCHANGED <<base, cmapc, umapc, interned, heap, shared, client>>
+  /\ last' = NoLast /\ UNCHANGED <<base, cmapc, umapc, interned, heap, rmemo, shared, client>>
 
 Next(s) ==
   /\ running = 0 /\ calls[s].st \in {"new", "idle"} /\ Remaining(s) # {}
   /\ calls' = [calls EXCEPT ![s].st = "run", ![s].pc = IF calls[s].st = "new" THEN "open" ELSE "page"]
   /\ running' = s
   /\ Log(Ev("next", s, calls[s].doc, calls[s].caching, calls[s].pages, "iter", 0, NoRes))
-  /\ last' = NoLast /\ UNCHANGED <<base, cmapc, umapc, interned, heap, shared, ncalls, client>>
+  /\ last' = NoLast /\ UNCHANGED <<base, cmapc, umapc, interned, heap, rmemo, shared, ncalls, client>>
 
 Close(s) ==
   /\ running = 0 /\ calls[s].st \in {"new", "idle"} /\ (EarlyClose \/ Remaining(s) = {})
   /\ calls' = [calls EXCEPT ![s] = Free]
   /\ Log(Ev("close", s, calls[s].doc, calls[s].caching, calls[s].pages, "iter", 0, NoRes))
-  /\ last' = NoLast /\ UNCHANGED <<base, cmapc, umapc, interned, heap, shared, running, ncalls, client>>
+  /\ last' = NoLast /\ UNCHANGED <<base, cmapc, umapc, interned, heap, rmemo, shared, running, ncalls, client>>
 
 UseCMap(n) ==
   /\ ClientCalls /\ running = 0 /\ ncalls < MaxCalls /\ client.st = "none"
@@ -337,7 +349,7 @@ UseCMap(n) ==
   /\ client' = [client EXCEPT !.st = "start", !.name = n]
   /\ ncalls' = ncalls + 1
   /\ Log(Ev("usecmap", 0, n, FALSE, {}, "client", 0, NoRes))
-  /\ last' = NoLast /\ UNCHANGED <<base, cmapc, umapc, interned, heap, shared, calls>>
+  /\ last' = NoLast /\ UNCHANGED <<base, cmapc, umapc, interned, heap, rmemo, shared, calls>>
 
 \* ------------------------------------------------------------------ micro-steps of the running call
 RECURSIVE InternAll(_, _)
@@ -352,13 +364,13 @@ ADocOpen ==
   /\ interned' = InternAll(interned, NamesOf(Me.doc))
   /\ heap' = IF Dev \cap AddressDevs = {} THEN heap ELSE 1 - heap
   /\ SetMe([Me EXCEPT !.pc = "page"])
-  /\ last' = NoLast /\ UNCHANGED <<base, cmapc, umapc, shared, running, ncalls, client, sched>>
+  /\ last' = NoLast /\ UNCHANGED <<base, cmapc, umapc, rmemo, shared, running, ncalls, client, sched>>
 
 \* PDFPage.get_pages yields the next selected page; process_page -> render_contents -> init_resources
 APageStart ==
   /\ Micro("page")
   /\ SetMe([Me EXCEPT !.cur = Min(Remaining(running)), !.pc = "res"])
-  /\ last' = NoLast /\ UNCHANGED <<base, cmapc, umapc, interned, heap, shared, running, ncalls, client, sched>>
+  /\ last' = NoLast /\ UNCHANGED <<base, cmapc, umapc, interned, heap, rmemo, shared, running, ncalls, client, sched>>
 
 \* init_resources(resources): fontmap, xobjmap and csmap are made anew for EVERY page - also for a page whose /Resources is
 \* empty (for which nothing else is prepared).  Dangerous alternative: return for empty resources before the reset.
@@ -369,7 +381,7 @@ AInitResources ==
      IF has THEN SetMe([fresh EXCEPT !.pc = "cs"])
      ELSE IF "InitResourcesEarlyReturn" \in Dev THEN SetMe([Me EXCEPT !.pc = "font", !.todo = <<>>])
      ELSE SetMe([fresh EXCEPT !.pc = "font", !.todo = <<>>])
-  /\ last' = NoLast /\ UNCHANGED <<base, cmapc, umapc, interned, heap, shared, running, ncalls, client, sched>>
+  /\ last' = NoLast /\ UNCHANGED <<base, cmapc, umapc, interned, heap, rmemo, shared, running, ncalls, client, sched>>
 
 \* init_resources: self.csmap = PREDEFINED_COLORSPACE.copy(), then the document's own colour spaces are added (and the
 \* page's XObjects entered into xobjmap)
@@ -383,7 +395,7 @@ AInitColorSpacesCopy ==
      ELSE /\ base' = base
           /\ SetMe([Me EXCEPT !.csShared = FALSE, !.cs = add(base.cs), !.pc = "font", !.todo = FontSeq(Me.doc, Me.cur),
                               !.xo = DefinesForm(Me.doc, Me.cur)])
-  /\ last' = NoLast /\ UNCHANGED <<cmapc, umapc, interned, heap, shared, running, ncalls, client, sched>>
+  /\ last' = NoLast /\ UNCHANGED <<cmapc, umapc, interned, heap, rmemo, shared, running, ncalls, client, sched>>
 
 \* PDFResourceManager.get_font(objid, spec): objid in _cached_fonts
 \* the key a font-dictionary entry is looked up under: its object number; a direct dictionary has none (objid = None is
@@ -395,20 +407,20 @@ AFontCacheHit ==
   /\ LET o == Head(Me.todo)  k == LookupKey(o) IN
        /\ k # 0 /\ Cache(running)[k].kind # ""
        /\ SetMe([Me EXCEPT !.fm[o] = Cache(running)[k], !.todo = Tail(Me.todo)])
-  /\ last' = NoLast /\ UNCHANGED <<base, cmapc, umapc, interned, heap, shared, running, ncalls, client, sched>>
+  /\ last' = NoLast /\ UNCHANGED <<base, cmapc, umapc, interned, heap, rmemo, shared, running, ncalls, client, sched>>
 AFontMiss ==
   /\ Micro("font") /\ Me.todo # <<>>
   /\ LookupKey(Head(Me.todo)) = 0 \/ Cache(running)[LookupKey(Head(Me.todo))].kind = ""
   /\ SetMe([Me EXCEPT !.pc = IF Head(Me.todo) = 0 THEN "enc"            \* a direct dictionary: nothing to fetch
                              ELSE IF HasObjStm(Me.doc) /\ Head(Me.todo) \in StmMembers THEN "obj" ELSE "spec",
                       !.bld = [NoFont EXCEPT !.src = Me.doc, !.kind = IF Head(Me.todo) \in {0, 5} THEN "simple" ELSE "cid"]])
-  /\ last' = NoLast /\ UNCHANGED <<base, cmapc, umapc, interned, heap, shared, running, ncalls, client, sched>>
+  /\ last' = NoLast /\ UNCHANGED <<base, cmapc, umapc, interned, heap, rmemo, shared, running, ncalls, client, sched>>
 
 \* PDFDocument.getobj(objid) in the two-revision document.  objid in _cached_objs: the cached object is returned
 AObjCacheHit ==
   /\ Micro("obj") /\ Me.oc[Head(Me.todo)] # ""
   /\ SetMe([Me EXCEPT !.bld.ver = Me.oc[Head(Me.todo)], !.pc = "spec"])
-  /\ last' = NoLast /\ UNCHANGED <<base, cmapc, umapc, interned, heap, shared, running, ncalls, client, sched>>
+  /\ last' = NoLast /\ UNCHANGED <<base, cmapc, umapc, interned, heap, rmemo, shared, running, ncalls, client, sched>>
 \* the newest cross-reference section that lists objid says "member of the object stream": _getobj_objstm parses the stream
 \* (all members at once) and returns the requested member; ONLY that member enters _cached_objs.  Dangerous alternative:
 \* every member is entered (setdefault) - including object 18, whose current definition is revision 2's
@@ -418,12 +430,12 @@ AObjStmParse ==
          sib(m) == IF "ObjStmSiblingsCached" \in Dev /\ Me.oc[m] = "" THEN (IF InNewestStm(Me.doc, m) THEN "new" ELSE "old") ELSE Me.oc[m] IN
      SetMe([Me EXCEPT !.bld.ver = "new", !.pc = "spec",
                       !.oc = IF Me.caching THEN [m \in StmMembers |-> IF m = o THEN "new" ELSE sib(m)] ELSE @])
-  /\ last' = NoLast /\ UNCHANGED <<base, cmapc, umapc, interned, heap, shared, running, ncalls, client, sched>>
+  /\ last' = NoLast /\ UNCHANGED <<base, cmapc, umapc, interned, heap, rmemo, shared, running, ncalls, client, sched>>
 \* the newest section that lists objid gives a file offset: the object is parsed there
 AObjDirectParse ==
   /\ Micro("obj") /\ Me.oc[Head(Me.todo)] = "" /\ ~InNewestStm(Me.doc, Head(Me.todo))
   /\ SetMe([Me EXCEPT !.bld.ver = "new", !.pc = "spec", !.oc[Head(Me.todo)] = IF Me.caching THEN "new" ELSE @])
-  /\ last' = NoLast /\ UNCHANGED <<base, cmapc, umapc, interned, heap, shared, running, ncalls, client, sched>>
+  /\ last' = NoLast /\ UNCHANGED <<base, cmapc, umapc, interned, heap, rmemo, shared, running, ncalls, client, sched>>
 
 \* dict_value(spec): getobj of the font dictionary; for a Type0 font also dict_value(DescendantFonts[0]): object 9, taken
 \* from PDFDocument._cached_objs when an earlier font of this call already fetched it with caching on.  In an encrypted
@@ -436,19 +448,19 @@ AGetFontSpec ==
                       !.pc = IF o = 5 THEN "enc"
                              ELSE IF Encrypted(Me.doc) /\ (~hit \/ "DecipherTwice" \in Dev) THEN "decipher"
                              ELSE IF hit THEN "copy" ELSE "parsed"])
-  /\ last' = NoLast /\ UNCHANGED <<base, cmapc, umapc, interned, heap, shared, running, ncalls, client, sched>>
+  /\ last' = NoLast /\ UNCHANGED <<base, cmapc, umapc, interned, heap, rmemo, shared, running, ncalls, client, sched>>
 \* an unencrypted object 9 has been parsed: it enters the document's cache as it is
 AGetObjParsed ==
   /\ Micro("parsed")
   /\ SetMe([Me EXCEPT !.dec = 1, !.d9 = IF Me.caching THEN [dec |-> 1, tu |-> EmptyStr] ELSE NoD9, !.pc = "copy"])
-  /\ last' = NoLast /\ UNCHANGED <<base, cmapc, umapc, interned, heap, shared, running, ncalls, client, sched>>
+  /\ last' = NoLast /\ UNCHANGED <<base, cmapc, umapc, interned, heap, rmemo, shared, running, ncalls, client, sched>>
 \* decipher_all(decipher, objid, genno, obj): in place, on the object just parsed; the result is what gets cached
 ADecipherAllInPlace ==
   /\ Micro("decipher")
   /\ LET n == Me.dec + 1 IN
      SetMe([Me EXCEPT !.dec = n, !.d9 = IF Me.caching THEN [Me.d9 EXCEPT !.dec = n] ELSE NoD9,
                       !.bld.garbled = (n # 1), !.pc = "copy"])
-  /\ last' = NoLast /\ UNCHANGED <<base, cmapc, umapc, interned, heap, shared, running, ncalls, client, sched>>
+  /\ last' = NoLast /\ UNCHANGED <<base, cmapc, umapc, interned, heap, rmemo, shared, running, ncalls, client, sched>>
 \* get_font, Type0: subspec = dict_value(dfonts[0]).copy(); subspec[k] = resolve1(spec[k]) for Encoding, ToUnicode -
 \* the Type0 font's own entries go into a COPY of the descendant dictionary
 ACopyDescendantSpec ==
@@ -460,7 +472,7 @@ ACopyDescendantSpec ==
      THEN SetMe([Me EXCEPT !.bld.touni = IF hasOwn THEN own ELSE Me.d9.tu,
                            !.d9.tu = IF hasOwn /\ Me.d9.dec > 0 THEN own ELSE @, !.pc = "cmap"])
      ELSE SetMe([Me EXCEPT !.bld.touni = own, !.pc = "cmap"])
-  /\ last' = NoLast /\ UNCHANGED <<base, cmapc, umapc, interned, heap, shared, running, ncalls, client, sched>>
+  /\ last' = NoLast /\ UNCHANGED <<base, cmapc, umapc, interned, heap, rmemo, shared, running, ncalls, client, sched>>
 
 \* EncodingDB.get_encoding(name, diff): without Differences the shared table itself is returned ...
 \* (the direct font /F4 names /WinAnsiEncoding; a font without /Encoding - dC's /F1 - gets the StandardEncoding table)
@@ -469,7 +481,7 @@ AGetEncodingShared ==
   /\ SetMe([Me EXCEPT !.bld.encShared = TRUE,
                       !.bld.encName = IF HasBuiltin(Me.doc) /\ Head(Me.todo) = 5 THEN "Standard" ELSE "WinAnsi",
                       !.pc = IF Head(Me.todo) = 0 THEN "widths" ELSE "touni"])
-  /\ last' = NoLast /\ UNCHANGED <<base, cmapc, umapc, interned, heap, shared, running, ncalls, client, sched>>
+  /\ last' = NoLast /\ UNCHANGED <<base, cmapc, umapc, interned, heap, rmemo, shared, running, ncalls, client, sched>>
 \* ... with Differences a copy is made FIRST, whatever the array holds; the entries are then applied one by one
 AGetEncodingCopyOnWrite ==
   /\ Micro("enc") /\ HasDiff(Me.doc) /\ Head(Me.todo) # 0
@@ -477,7 +489,7 @@ AGetEncodingCopyOnWrite ==
      THEN SetMe([Me EXCEPT !.bld.encShared = TRUE, !.bld.encName = "WinAnsi", !.pc = "diff", !.dk = 1])
      ELSE SetMe([Me EXCEPT !.bld.encShared = FALSE, !.bld.encName = "WinAnsi", !.bld.encOwn = base.enc["WinAnsi"],
                            !.pc = "diff", !.dk = 1])
-  /\ last' = NoLast /\ UNCHANGED <<base, cmapc, umapc, interned, heap, shared, running, ncalls, client, sched>>
+  /\ last' = NoLast /\ UNCHANGED <<base, cmapc, umapc, interned, heap, rmemo, shared, running, ncalls, client, sched>>
 DiffEntry == DiffSeq(Me.doc)[Me.dk]
 DiffNext  == IF Me.dk = Len(DiffSeq(Me.doc)) THEN "touni" ELSE "diff"
 \* cid2unicode[cid] = name2unicode(name): the name has a Unicode value - ASSIGN
@@ -494,7 +506,7 @@ ADifferencesAssign ==
           /\ SetMe([Me EXCEPT !.dk = @ + 1, !.pc = DiffNext])
      ELSE /\ base' = base
           /\ SetMe([Me EXCEPT !.bld.encOwn[c] = v, !.dk = @ + 1, !.pc = DiffNext])
-  /\ last' = NoLast /\ UNCHANGED <<cmapc, umapc, interned, heap, shared, running, ncalls, client, sched>>
+  /\ last' = NoLast /\ UNCHANGED <<cmapc, umapc, interned, heap, rmemo, shared, running, ncalls, client, sched>>
 \* except KeyError: cid2unicode.pop(cid, None): the name has no Unicode value - the code is REMOVED from the table the
 \* font is going to use (the copy; under a deviation that has not copied yet: the process-wide table)
 ADifferencesPop ==
@@ -505,7 +517,7 @@ ADifferencesPop ==
           /\ SetMe([Me EXCEPT !.dk = @ + 1, !.pc = DiffNext])
      ELSE /\ base' = base
           /\ SetMe([Me EXCEPT !.bld.encOwn[c] = "", !.dk = @ + 1, !.pc = DiffNext])
-  /\ last' = NoLast /\ UNCHANGED <<cmapc, umapc, interned, heap, shared, running, ncalls, client, sched>>
+  /\ last' = NoLast /\ UNCHANGED <<cmapc, umapc, interned, heap, rmemo, shared, running, ncalls, client, sched>>
 
 LoadCMap(n) == [cmapc EXCEPT ![n] = [loaded |-> TRUE, tab |-> PristineCMap(n)]]
 \* CMapParser on the ToUnicode stream into a fresh FileUnicodeMap; `usecmap` calls CMapDB.get_cmap(name), which fills the
@@ -515,7 +527,7 @@ AParseToUnicode ==
   /\ LET n == UseNamed(Me.doc) IN
      cmapc' = IF n # "" /\ ~cmapc[n].loaded THEN LoadCMap(n) ELSE cmapc
   /\ SetMe([Me EXCEPT !.bld.touni = ToUni(Me.doc), !.pc = "widths"])
-  /\ last' = NoLast /\ UNCHANGED <<base, umapc, interned, heap, shared, running, ncalls, client, sched>>
+  /\ last' = NoLast /\ UNCHANGED <<base, umapc, interned, heap, rmemo, shared, running, ncalls, client, sched>>
 
 \* CMapDB.get_cmap(name): the font keeps a reference to the cached object.  A font with a ToUnicode stream uses that and
 \* never asks for the ordering's unicode map
@@ -524,28 +536,34 @@ ACMapCacheFill ==
   /\ Micro("cmap") /\ ~cmapc[CMapOf(Me.doc)].loaded
   /\ cmapc' = LoadCMap(CMapOf(Me.doc))
   /\ SetMe([Me EXCEPT !.bld.cmap = CMapOf(Me.doc), !.bld.vert = Vertical(CMapOf(Me.doc)), !.pc = AfterCMap])
-  /\ last' = NoLast /\ UNCHANGED <<base, umapc, interned, heap, shared, running, ncalls, client, sched>>
+  /\ last' = NoLast /\ UNCHANGED <<base, umapc, interned, heap, rmemo, shared, running, ncalls, client, sched>>
 ACMapCacheHit ==
   /\ Micro("cmap") /\ cmapc[CMapOf(Me.doc)].loaded
   /\ SetMe([Me EXCEPT !.bld.cmap = CMapOf(Me.doc), !.bld.vert = Vertical(CMapOf(Me.doc)), !.pc = AfterCMap])
-  /\ last' = NoLast /\ UNCHANGED <<base, cmapc, umapc, interned, heap, shared, running, ncalls, client, sched>>
+  /\ last' = NoLast /\ UNCHANGED <<base, cmapc, umapc, interned, heap, rmemo, shared, running, ncalls, client, sched>>
 \* CMapDB.get_unicode_map(ordering, vertical): the cache entry holds both writing modes
 AUMapCacheFill ==
   /\ Micro("umap") /\ ~umapc.loaded
   /\ umapc' = [loaded |-> TRUE, first |-> IF Me.bld.vert THEN "v" ELSE "h", h |-> PristineUMapH, v |-> PristineUMapV]
   /\ SetMe([Me EXCEPT !.pc = "widths"])
-  /\ last' = NoLast /\ UNCHANGED <<base, cmapc, interned, heap, shared, running, ncalls, client, sched>>
+  /\ last' = NoLast /\ UNCHANGED <<base, cmapc, interned, heap, rmemo, shared, running, ncalls, client, sched>>
 AUMapCacheHit ==
   /\ Micro("umap") /\ umapc.loaded
   /\ SetMe([Me EXCEPT !.pc = "widths"])
-  /\ last' = NoLast /\ UNCHANGED <<base, cmapc, umapc, interned, heap, shared, running, ncalls, client, sched>>
+  /\ last' = NoLast /\ UNCHANGED <<base, cmapc, umapc, interned, heap, rmemo, shared, running, ncalls, client, sched>>
 
 \* PDFFont.__init__: self.widths = resolve_all(widths) - in place, on the dictionary the font constructor just built
 AResolveAllInPlace ==
   /\ Micro("widths")
-  /\ SetMe([Me EXCEPT !.bld.w = IF Head(Me.todo) = 5 THEN Widths(Me.doc) ELSE IF Head(Me.todo) = 0 THEN Widths4(Me.doc)
-                                  ELSE CIDWidths(Me.doc),
-                      !.pc = IF HasBuiltin(Me.doc) /\ Head(Me.todo) = 5 THEN "builtin" ELSE "fill"])
+  /\ LET viaRef == Head(Me.todo) \in Type0 /\ IndirectW(Me.doc)    \* the widths dictionary holds the reference 15 0 R
+         shared15 == "ResolveMemoProcessWide" \in Dev
+         \* resolve_all looks the object number up in its memo first - a memo made for THIS call.  Dangerous alternative: the
+         \* memo is a mutable default argument: one dictionary for the whole process
+         v15 == IF shared15 /\ rmemo # 0 THEN rmemo ELSE W15(Me.doc) IN
+       /\ rmemo' = IF viaRef /\ shared15 /\ rmemo = 0 THEN W15(Me.doc) ELSE rmemo
+       /\ SetMe([Me EXCEPT !.bld.w = IF Head(Me.todo) = 5 THEN Widths(Me.doc) ELSE IF Head(Me.todo) = 0 THEN Widths4(Me.doc)
+                                       ELSE IF viaRef THEN [CIDWidths(Me.doc) EXCEPT ![1] = v15] ELSE CIDWidths(Me.doc),
+                           !.pc = IF HasBuiltin(Me.doc) /\ Head(Me.todo) = 5 THEN "builtin" ELSE "fill"])
   /\ last' = NoLast /\ UNCHANGED <<base, cmapc, umapc, interned, heap, shared, running, ncalls, client, sched>>
 
 \* PDFType1Font: no /Encoding in the font dictionary and a /FontFile: Type1FontHeaderParser reads the clear-text header.
@@ -558,7 +576,7 @@ ABuiltinEncoding ==
           /\ SetMe([Me EXCEPT !.bld.encShared = TRUE, !.bld.encName = "Standard", !.pc = "fill"])
      ELSE /\ base' = base
           /\ SetMe([Me EXCEPT !.bld.encShared = FALSE, !.bld.encOwn = Builtin(base.enc["Standard"]), !.pc = "fill"])
-  /\ last' = NoLast /\ UNCHANGED <<cmapc, umapc, interned, heap, shared, running, ncalls, client, sched>>
+  /\ last' = NoLast /\ UNCHANGED <<cmapc, umapc, interned, heap, rmemo, shared, running, ncalls, client, sched>>
 
 \* get_font: if objid and self.caching: self._cached_fonts[objid] = font
 AFontCacheFill ==
@@ -567,7 +585,7 @@ AFontCacheFill ==
        /\ shared' = IF o # 0 /\ Me.caching /\ "SharedManager" \in Dev THEN [shared EXCEPT ![o] = f] ELSE shared
        /\ SetMe([Me EXCEPT !.fm[o] = f, !.fonts[o] = IF o # 0 /\ Me.caching /\ "SharedManager" \notin Dev THEN f ELSE @,
                            !.todo = Tail(Me.todo), !.bld = NoFont, !.dec = 0, !.pc = "font"])
-  /\ last' = NoLast /\ UNCHANGED <<base, cmapc, umapc, interned, heap, running, ncalls, client, sched>>
+  /\ last' = NoLast /\ UNCHANGED <<base, cmapc, umapc, interned, heap, rmemo, running, ncalls, client, sched>>
 
 \* what a font shows for a code NOW (fonts hold references into the shared tables, so this reads the current process state)
 GlyphText(f, c) ==
@@ -606,7 +624,7 @@ AExecuteContents ==
                       \* alternative: the identity of the stream object - a new one for every Do when caching is off
                       !.ovf = /\ "FormsInProgressByIdentity" \in Dev /\ ~Me.caching
                               /\ FormCycle(Me.doc) /\ UsesForm(Me.doc, Me.cur) /\ Me.xo])
-  /\ last' = NoLast /\ UNCHANGED <<base, cmapc, umapc, interned, heap, shared, running, ncalls, client, sched>>
+  /\ last' = NoLast /\ UNCHANGED <<base, cmapc, umapc, interned, heap, rmemo, shared, running, ncalls, client, sched>>
 
 ARender ==
   /\ Micro("render")
@@ -619,7 +637,7 @@ ARender ==
        /\ IF finished THEN calls' = [calls EXCEPT ![running] = Free] /\ running' = 0
           ELSE IF Me.atomic THEN SetMe([Me EXCEPT !.done = done, !.pc = "page"]) /\ running' = running
           ELSE SetMe([Me EXCEPT !.done = done, !.st = "idle", !.pc = ""]) /\ running' = 0
-  /\ UNCHANGED <<base, cmapc, umapc, interned, heap, shared, ncalls, client>>
+  /\ UNCHANGED <<base, cmapc, umapc, interned, heap, rmemo, shared, ncalls, client>>
 
 \* ------------------------------------------------------------------ the client call: own CMap on top of a cached one
 \* CMap.use_cmap(CMapDB.get_cmap(n)): the cached table is copied into the client's CMap
@@ -628,14 +646,14 @@ AUseCMapCopy ==
   /\ cmapc' = IF cmapc[client.name].loaded THEN cmapc ELSE LoadCMap(client.name)
   /\ client' = IF "UseCMapAlias" \in Dev THEN [client EXCEPT !.st = "used", !.alias = TRUE]
                ELSE [client EXCEPT !.st = "used", !.alias = FALSE, !.own = PristineCMap(client.name)]
-  /\ last' = NoLast /\ UNCHANGED <<base, umapc, interned, heap, shared, calls, running, ncalls, sched>>
+  /\ last' = NoLast /\ UNCHANGED <<base, umapc, interned, heap, rmemo, shared, calls, running, ncalls, sched>>
 \* FileCMap.add_code2cid: the client maps code 1 to its own CID 99 - in ITS table
 AAddCode2Cid ==
   /\ running = 0 - 1 /\ client.st = "used"
   /\ IF client.alias THEN cmapc' = [cmapc EXCEPT ![client.name].tab[1] = 99] /\ client' = [client EXCEPT !.st = "none"]
      ELSE cmapc' = cmapc /\ client' = [client EXCEPT !.st = "none", !.own = EmptyTab]
   /\ running' = 0
-  /\ last' = NoLast /\ UNCHANGED <<base, umapc, interned, heap, shared, calls, ncalls, sched>>
+  /\ last' = NoLast /\ UNCHANGED <<base, umapc, interned, heap, rmemo, shared, calls, ncalls, sched>>
 
 Sched == \/ \E d \in Docs, c \in Cachings, ps \in PageSets : Open(d, c, ps) \/ \E k \in Kinds : Extract(d, c, ps, k)
          \/ \E s \in 1..MaxLive : Next(s) \/ Close(s)
@@ -669,6 +687,8 @@ DecipheredOnce == \A s \in 1..MaxLive : calls[s].d9.dec \in {0, 1}
 \* the document's object cache holds, for every object number, the object's CURRENT definition: filling the cache from a
 \* parsed object stream never shadows a newer definition
 ObjCacheNewest == \A s \in 1..MaxLive : \A m \in StmMembers : calls[s].oc[m] \in {"", "new"}
+\* resolve_all's bookkeeping does not outlive the call
+ResolveMemoPerCall == rmemo = 0
 \* a cached object is what parsing the file gives: nothing was written into it
 CachedObjectsAsParsed == \A s \in 1..MaxLive : calls[s].d9.tu = EmptyStr /\ calls[s].ca
 \* the shared base tables never change: no entry is assigned, none is removed
